@@ -15,8 +15,9 @@ A labelled transition system with one action per access the real threads make to
     `txApply`      `self.pending.put(entry)` | `self.active_requests[key] = entry`   (releases the lock)
     `txSend` / `txSendFail`   `self.io.send(line)` returns / raises
 * rx thread `__rxthread`
-    `rxCleanup`    `entry = self.cleanup.pop()`, then under the lock: remove the entry from `active_requests`
-                   (search by identity) and, if it was there, take all parked requests out of `pending`
+    `rxCleanPop`   `entry = self.cleanup.pop()`
+    `rxCleanup`    under the lock: remove the entry from `active_requests` (search by identity) and, if it was
+                   there, take all parked requests out of `pending`
     `rxRead`       `reply = self.io.readline()` returned a line
     `rxMatch`      `decode_msg`; lines consumed by the cache code (`update`, `error_update` of a known parameter)
                    and undecodable lines are dropped; otherwise under the lock:
@@ -119,6 +120,7 @@ structure St (α : Type) where
   rxLine : Option (Line α) := none           -- read, not yet matched
   rxSet : Option (Entry α × Line α) := none  -- popped, event not yet set
   rxHold : List (Entry α) := []              -- parked requests taken out of `pending`, not yet requeued
+  rxClean : Option Nat := none               -- timed-out request taken from `cleanup`, not yet looked up
   wireOut : List (Entry α) := []             -- transmitted requests, oldest first
   wireIn : List (Line α) := []               -- emitted by the peer, not yet read
   nextSeq : Nat := 0
@@ -144,6 +146,7 @@ inductive Label (α : Type) where
   | rxMatch (found : Option Nat)
   | rxSetEvent
   | rxRequeue
+  | rxCleanPop
   | rxCleanup (removed : Bool)
   | closeBegin
   | closeTxq
@@ -188,13 +191,13 @@ def rxMatchF (tbl : List (α × α)) (s : St α) (l : Line α) (found : Option N
       | some (e, act) => rxDeliver s act e l
       | none => { s with rxLine := none }
 
-def rxCleanupF (s : St α) (i : Nat) (rest : List Nat) (removed : Bool) : St α :=
+def rxCleanupF (s : St α) (i : Nat) (removed : Bool) : St α :=
   if removed then
     match findId s.active i with
-    | some k => { s with cleanup := rest, active := eraseKey s.active k,
+    | some k => { s with rxClean := none, active := eraseKey s.active k,
                          rxHold := s.rxHold ++ s.pending, pending := [] }
-    | none => { s with cleanup := rest }
-  else { s with cleanup := rest }
+    | none => { s with rxClean := none }
+  else { s with rxClean := none }
 
 /-- apply the observed effect of one action (total; a label that does not fit the state leaves it unchanged) -/
 def stepF (tbl : List (α × α)) (s : St α) : Label α → St α
@@ -233,10 +236,14 @@ def stepF (tbl : List (α × α)) (s : St α) : Label α → St α
     match s.rxHold with
     | e :: t => { s with rxHold := t, txq := s.txq ++ [e] }
     | [] => s
-  | .rxCleanup removed =>
+  | .rxCleanPop =>
     match s.cleanup with
-    | e :: t => rxCleanupF s e t removed
+    | i :: t => { s with cleanup := t, rxClean := some i }
     | [] => s
+  | .rxCleanup removed =>
+    match s.rxClean with
+    | some i => rxCleanupF s i removed
+    | none => s
   | .closeBegin => { s with closing := true }
   | .closeTxq =>
     match s.txq with
@@ -266,18 +273,18 @@ def enabled (tbl : List (α × α)) (locked : Bool) (s : St α) : Label α → B
   | .txSend => s.txOut.isSome
   | .txSendFail => s.txOut.isSome
   | .peerEmit .. => true
-  | .rxRead => s.rxLine.isNone && s.rxSet.isNone && s.rxHold.isEmpty && !s.wireIn.isEmpty
+  | .rxRead => s.rxClean.isNone && s.rxLine.isNone && s.rxSet.isNone && s.rxHold.isEmpty && !s.wireIn.isEmpty
   | .rxMatch found =>
     match s.rxLine with
     | some l => s.rxSet.isNone && (l.event || lockFree locked s) && (found == (matchEntry tbl s l).map (·.id))
     | none => false
   | .rxSetEvent => s.rxSet.isSome
   | .rxRequeue => s.rxSet.isNone && !s.rxHold.isEmpty
+  | .rxCleanPop => s.rxClean.isNone && s.rxLine.isNone && s.rxSet.isNone && s.rxHold.isEmpty && !s.cleanup.isEmpty
   | .rxCleanup removed =>
-    match s.cleanup with
-    | i :: _ => s.rxLine.isNone && s.rxSet.isNone && s.rxHold.isEmpty && lockFree locked s
-                && (removed == (findId s.active i).isSome)
-    | [] => false
+    match s.rxClean with
+    | some i => lockFree locked s && (removed == (findId s.active i).isSome)
+    | none => false
   | .closeBegin => true
   | .closeTxq => s.closing && !s.txq.isEmpty
   | .closeActive => s.closing && !s.active.isEmpty && lockFree locked s
